@@ -33,7 +33,7 @@ SIMTYPES = "@SIMTYPES@"
 def prepare(repo):
     """Load the corpus from the working tree (before workers fork)."""
     from ..qtworld import build as qtbuild
-    qtbuild.setup()     # synthetic classes: documents of the World-B generator widen the construct coverage
+    qtbuild.setup(repo)     # synthetic classes: documents of the World-B generator widen the construct coverage
     widegen.load(os.path.join(repo, "contrib/metatypes"))
     ex = {}
     exroot = os.path.join(repo, "examples")
